@@ -36,7 +36,7 @@ def run(tier, only=None):
             continue
         results += pmut.check_source_isolation(kind)
     info["states"] = max(1, len([r for r in results if r.status == "held"]))  # (program, evaluation order) pairs executed symbolically
-    info["transitions"] = max(1, sum(int(r.detail.split(" task calls")[0]) for r in results if " task calls" in r.detail))  # task calls watched by the identity oracle
+    info["transitions"] = max(1, sum(int(r.detail.split(" task calls")[0]) for r in results if r.status == "held" and r.name.endswith("|no-mutation") and r.detail.split(" task calls")[0].isdigit()))  # task calls watched by the identity oracle
     info["traces_validated_against_impl"] = len([r for r in results if r.name.endswith("|concrete-purity") and r.status == "held"])
     info["rule"] = ("per program: (no-mutation) symbolic execution of the real fused plan with argument identities compared across every task call; (order) z3: forward "
                     "and reverse evaluation orders give the same partitions for all data; (concrete-purity) labelled by-product on the default tables")
